@@ -10,6 +10,8 @@ THEOREMS = [
     "IsoVerif.Props.C02.C02_equal_write_noop_singleton",
     "IsoVerif.Props.C02.C02_equal_write_no_rerun",
     "IsoVerif.Props.C02.C02_unrelated_write_partial",
+    "IsoVerif.Props.C02.C02_quiet_no_rerun",
+    "IsoVerif.Props.C02.C02_unrelated_writes_nested_partial",
 ]
 HARNESS = ("hx_pico", {"HX_ENGINE": "c02"})
 DRIVER = "drv_pico"
@@ -18,7 +20,7 @@ TECHNIQUE = _b.TECHNIQUE.replace("every call's value = from-scratch evaluation o
                                  "the implementation's per-function run-counter deltas must lie within what an ideal memoiser (semantic direct dependencies, no stamps) executes")
 PARTIAL = [
     "C02_statement (every execution is a first run, follows a collection, or has a changed DIRECT semantic dependency) is not proved in general; no history is known on which today's code violates it: F3 (/repo b7bfe5c) and F22 (/repo 340414a) were repaired, their former witness histories are kernel-checked to satisfy the statement, and the correspondence + ideal-memoiser oracle find nothing",
-    "C02_equal_write_noop / _no_rerun hold for ALL programs and states; C02_unrelated_write_partial carries nesting depth 0 (Flat) and clean calls only, and speaks about pico's RECORDED dependencies of the node",
+    "C02_equal_write_noop / _no_rerun hold for ALL programs and states. C02_quiet_no_rerun holds for ALL programs and states: a stored node whose recorded dependencies are transitively un-restamped is served without running any body. C02_unrelated_writes_nested_partial carries any nesting depth for acyclic programs with clean calls: after a call, any sequence of source operations (keyed, singleton, tracked-field; any values) on keys outside the RECORDED dependency closure of the node, then the same call again, runs no body. C02_unrelated_write_partial is the older depth-0 stage",
     "backdating (a re-executed intermediate with an equal value does not re-execute its dependents) is not carried by a theorem: for nested programs it rests on the correspondence + ideal-memoiser oracle",
 ]
 ASSUMPTIONS = _b.ASSUMPTIONS + [
